@@ -259,9 +259,12 @@ func (c *FileCache[MetadataT]) Cache(key CacheKey, data io.Reader, expires time.
 		return nil, fmt.Errorf("%w: failed to seek to start of cache file '%s'", ErrCacheFileRead, fileName)
 	}
 
+	// Hand out a snapshot, as Get does: the caller goes on reading it without the entry's lock
+	// while UpdateMetadata and Get write the stored metadata.
+	metaSnapshot := *meta
 	return &Entry[MetadataT]{
 		Data:     file,
-		Metadata: meta,
+		Metadata: &metaSnapshot,
 	}, nil
 }
 
